@@ -1,6 +1,7 @@
 """C11 Stop-the-world bracket: structural necessary clauses (DESIGN.md 4/C11)."""
 import re
 from .common import *
+from .bitiso import upvar_tree
 from ..engine import AnalysisError, show, strip, short, tree_calls
 
 PROP = "C11"
@@ -155,7 +156,18 @@ def run(ctx, F):
         blocks = [c.bb for c in adds]
         mn, mx = clo.cfg.path_counts(blocks)
         guards = [sig_strs(clo, b) for b in blocks]
-        okr = len(adds) >= 1 and mx == 1 and all(len(sig(clo, b)) == 1 and sig_find(clo, b, r"skip_roots", False) for b in blocks)
+        def unroot(p):
+            """the single guard says "roots are not skipped": !self.skip_roots, or a captured local holding that value"""
+            s_, v = show(simp(p.tree)), p.val
+            m = re.match(r"^\*?upvar\((\w+)\)$", s_)
+            if m:
+                _, ut = upvar_tree(F, clo, m.group(1))
+                s_ = show(simp(ut)) if ut is not None else s_
+            s_ = re.sub(r"^\*", "", s_)
+            if re.match(r"^Not\(.*\.skip_roots\)$", s_):
+                return v is True
+            return s_.endswith(".skip_roots") and v is False
+        okr = len(adds) >= 1 and mx == 1 and all(len(sig(clo, b)) == 1 and unroot(sig(clo, b)[0]) for b in blocks)
         ctx.judge(okr, "C11.roots-once", "visitor adds one ScanMutatorRoots per mutator",
                   expected="at most one ScanMutatorRoots add per visitor invocation, guarded exactly by !skip_roots",
                   found="adds=%d max-per-path=%s guards=%s" % (len(adds), mx, guards), where=where(clo), key="C11.roots-once|visitor")
@@ -166,8 +178,13 @@ def run(ctx, F):
                       key="C11.roots-once|arg")
             st = strip(clo.flow.arg_tree(c, 0))
             stage = [x for x in tree_calls(st, name="index")]
-            ctx.judge("Prepare" in show(st), "C11.roots-once", "ScanMutatorRoots stage", expected="added to a STW stage (Prepare)",
-                      found=show(st), where=where(clo, c.line), key="C11.roots-once|stage")
+            sts = show(st)
+            m = re.match(r"^\*?upvar\((\w+)\)$", sts)
+            if m:
+                _, ut = upvar_tree(F, clo, m.group(1))
+                sts = show(simp(ut)) if ut is not None else sts
+            ctx.judge("Prepare" in sts, "C11.roots-once", "ScanMutatorRoots stage", expected="added to a STW stage (Prepare)",
+                      found=sts, where=where(clo, c.line), key="C11.roots-once|stage")
     # first root round: the per-collection counter of scanned stacks is reset before the first ScanMutatorRoots packet can exist
     for s in stop_sites:
         f = s.fn
